@@ -75,6 +75,10 @@ def concretise(hist, triple, eol='', pad=True):
         el = seg_elems(s, pad)
         if el[0] == 'ISA':
             el = el[:-1] + [ct]
+        elif el[0] == 'HL' and not pad:
+            # level code and child code are no part of the numbering / parent claims: every form of them is written (child code
+            # 0 "no subordinate level", 1, absent; with and without the level code)
+            el = el[:3] + [['20', '1'], ['22', '0'], ['20'], ['20', '0'], []][i % 5]
         elif el[0] == 'REF' and not pad:
             # C04's own histories: an ordinary body segment is written with rotating segment ids (none of them special to the
             # reader: the definition knows only 'some other segment')
